@@ -1,6 +1,7 @@
 package registry
 
 import (
+	"go/token"
 	"go/types"
 	"path"
 	"strings"
@@ -61,6 +62,13 @@ func (p Package) uniqueName(lvl int) string {
 	var name string
 	for i := 0; i < min(len(pp), lvl+1); i++ {
 		name = strings.ToLower(replacer.Replace(pp[i])) + name
+	}
+
+	// The name is used as an import alias: path components can start with
+	// a digit or spell a keyword or a predeclared identifier (ex: 2fa,
+	// func, string), which cannot serve as a package qualifier.
+	if name != "" && (!token.IsIdentifier(name) || types.Universe.Lookup(name) != nil) {
+		name = "_" + name
 	}
 
 	return name
